@@ -184,6 +184,7 @@ type c17Case struct {
 	role       string // requester | fee-waiter
 	restartAt  int64  // crossing of the victim after which it is restarted (0 = none)
 	order      string
+	disturb    int // order "unacceptable-msg-mid-wait": type of the message the counterparty sends for this swap while the victim waits
 }
 
 func runC17(r *Run, seed int64, c c17Case) {
@@ -255,6 +256,17 @@ func runC17(r *Run, seed int64, c c17Case) {
 		h.victim.Restart()
 		h.settle()
 		p.w.Advance(4 * time.Minute)
+	case "unacceptable-msg-mid-wait":
+		// the counterparty sends, for this swap, a well-formed message the waiting state does not accept (it is
+		// not the awaited agreement / payment and not a cancel) and stays silent afterwards: the wait is still bounded
+		p.w.Advance(4 * time.Minute)
+		h.settle()
+		if sid, err := swap.ParseSwapIdFromString(p.id); err == nil {
+			payload := c09Payload(p.rng, c.disturb, sid, p.scid, c.chain, p.w, h.peer.ID, false)
+			p.w.DeliverNow(h.peer.ID, h.victim.Name, fmt.Sprintf("%x", c.disturb), payload)
+		}
+		h.settle()
+		p.w.Advance(6 * time.Minute)
 	default:
 		p.w.Advance(10 * time.Minute)
 	}
@@ -272,11 +284,18 @@ func runC17(r *Run, seed int64, c c17Case) {
 	r.Eval()
 	restarted := h.restarts > 1
 	role := h.victimRole()
-	r.Seen(fmt.Sprintf("%s/%s/%s/restarted=%v/before=%s/final=%s/cancel-sent=%v", c.chain, role, c.role, restarted, before, final, cancelSent))
+	seen := fmt.Sprintf("%s/%s/%s/restarted=%v/before=%s/final=%s/cancel-sent=%v", c.chain, role, c.role, restarted, before, final, cancelSent)
+	if c.disturb != 0 {
+		seen += fmt.Sprintf("/unacceptable-msg=%d", c.disturb)
+	}
+	r.Seen(seen)
 	if before == "" {
 		return // died before anything was persisted: no swap exists
 	}
 	tag := fmt.Sprintf("%s|%s|restarted=%v", role, before, restarted)
+	if c.disturb != 0 {
+		tag += fmt.Sprintf("|unacceptable-msg=%d", c.disturb)
+	}
 	if final != string(swap.State_SwapCanceled) {
 		r.Violate("cancel-within-timeout", "C17|not-cancelled-after-timeout|"+tag,
 			fmt.Sprintf("state %s -> %s after 10 virtual minutes without an answer (chain %s, restart after crossing %d)", before, final, c.chain, c.restartAt), traceOf(p.w))
@@ -289,7 +308,7 @@ func runC17(r *Run, seed int64, c c17Case) {
 func TestC17(t *testing.T) {
 	r := newRun(t, "C17", "fault_enumeration")
 	defer r.Finish()
-	r.Rule = "virtual-clock histories: (a) swap-in / swap-out requester whose request is never answered, (b) swap-out responder whose fee invoice is never paid; the clock is advanced by exactly 10 minutes and the due timers fire; every history is repeated with a restart after each boundary crossing of the negotiation phase. Oracle: committed state SwapCanceled and a cancel message sent. distinct = (chain, role, restarted, state before, state after, cancel sent)"
+	r.Rule = "virtual-clock histories: (a) swap-in / swap-out requester whose request is never answered, (b) swap-out responder whose fee invoice is never paid; the clock is advanced by exactly 10 minutes and the due timers fire; every history is repeated with a restart after each boundary crossing of the negotiation phase; (c) the same waits disturbed after 4 minutes by a well-formed message of this swap from its counterparty that the waiting state does not accept (opening_tx_broadcasted, coop_close, an agreement of the other type / a second agreement), after which the peer stays silent. Oracle: committed state SwapCanceled and a cancel message sent. distinct = (chain, role, restarted, state before, state after, cancel sent, disturbing message type)"
 	r.Assumptions = []string{"timeouts observed on the harness's virtual clock through the verif timeout hook"}
 	var cases []c17Case
 	for _, ch := range []string{"btc", "lbtc"} {
@@ -310,6 +329,21 @@ func TestC17(t *testing.T) {
 			c.order = o
 			cases = append(cases, c)
 			c.restartAt = 3
+			cases = append(cases, c)
+		}
+		// messages of this swap, from its counterparty, that the waiting state does not accept
+		var unacceptable []int
+		switch {
+		case b.role == "fee-waiter":
+			unacceptable = []int{ref.MsgOpeningTxBroadcast, ref.MsgCoopClose, ref.MsgSwapOutAgreement, ref.MsgSwapInAgreement}
+		case b.typ == "out":
+			unacceptable = []int{ref.MsgOpeningTxBroadcast, ref.MsgCoopClose, ref.MsgSwapInAgreement}
+		default:
+			unacceptable = []int{ref.MsgOpeningTxBroadcast, ref.MsgCoopClose, ref.MsgSwapOutAgreement}
+		}
+		for _, m := range unacceptable {
+			c := b
+			c.order, c.disturb = "unacceptable-msg-mid-wait", m
 			cases = append(cases, c)
 		}
 	}
